@@ -111,6 +111,14 @@ def handle (op : String) (a r : Json) : Except String Reply := do
       pure { m := m, prop := some holds,
              why := if holds then "" else "session outcomes / connection table differ from the admission specification (expected " ++ spec.compress ++ ")",
              sig := sig }
+  | "race" =>
+    -- one_per_id: whatever the interleaving of simultaneous handshakes, exactly one session of an
+    -- admissible ID is established and exactly one connection is registered
+    let m := jObj [("ok", jObj [("established", jNat 1), ("registered", jNat 1)])]
+    let holds := r == m
+    pure { m := m, prop := some holds,
+           why := if holds then "" else "simultaneous sessions announcing one node ID did not end with exactly one established connection",
+           sig := if holds then "" else "C11/race/not-exactly-one-connection-per-id" }
   | _ => throw s!"bad-op proto {op}"
 
 end Receptor.Drive.Proto
